@@ -125,7 +125,8 @@ def process_chunk_c10(args):
                     o["replacement"] = pcfg.replacement
                 for kname, kspec in (("10-byte key", {"key_b64": base64.b64encode(b"0123456789").decode()}),
                                      ("65-byte key", {"key_b64": base64.b64encode(bytes(range(65))).decode()}),
-                                     ("empty key", {"key_b64": ""})):
+                                     ("empty key", {"key_b64": ""}),
+                                     ("no key at all (nil) although encryption is switched on", {"key_nil": True})):
                     outp = os.path.join(workdir, "fc.out")
                     inproc(W, [{"op": "redact", "args": {"opts": dict(o, **kspec), "in": inp, "out": outp}}])
                     for n, line in enumerate(open(outp)):
@@ -140,6 +141,30 @@ def process_chunk_c10(args):
                                 kname, " - a literal is emitted in clear" if leaked else "", flags),
                                  {"input_line": sub[n][:4000], "output": (recd.get("o") or recd.get("p") or "")[:4000], "placeholder_output": want[:4000], "key": kname})
                             break
+        # through the CLI: --encrypt with an empty --encryptionKeyFile value (no key can be loaded): nothing may come out in clear
+        if chunk_no % 8 == 0 and cases:
+            pcfg = cfgs[0][0]
+            sub = texts[:300]
+            inp = os.path.join(workdir, "nk.in")
+            with open(inp, "w", encoding="utf-8") as f:
+                f.write("\n".join(sub) + "\n")
+            outp = os.path.join(workdir, "nk.out")
+            p = common.run_cli(b, ["redact", inp, "-o", outp, "--encrypt", "-q", ""] + pcfg.flags(), cwd=workdir)
+            res["evals"] += 1
+            got = open(outp, encoding="utf-8", errors="replace").read() if os.path.exists(outp) else ""
+            if p.returncode == 0 and got:
+                _, plain_out, _ = l3.run_batch(b, sub, pcfg, workdir)
+                pl = plain_out.split("\n")
+                aligned = got.count("\n") == len(sub) == plain_out.count("\n")
+                for n, raw in enumerate(got.split("\n") if aligned else []):
+                    if n >= len(sub) or not raw or n >= len(pl):
+                        continue
+                    leaked = [lf.token for lf in cases[n][2] if lf.token and lf.lab == "user" and lf.node[0] == 'str' and len(lf.token) >= 5
+                              and lf.token in raw and lf.token not in pl[n]]
+                    if leaked:
+                        viol("with --encrypt and an empty key-file path a sensitive string is emitted in clear flags=%s" % " ".join(pcfg.flags()),
+                             {"input_line": sub[n][:3000], "output": raw[:3000], "literal": leaked[0]})
+                        break
         if chunk_no == 0 and cases:
             res["samples"].append({"input_line": texts[0][:700], "placeholder": (gp.get(0) or "")[:700], "encrypted": (g1.get(0) or "")[:900]})
     finally:
